@@ -242,6 +242,54 @@ impl Check for C14 {
                 }
             }
         }
+        if phase == "gen" && d.chance(90) {
+            // trait objects across packages: a marker trait without methods and a trait with one method,
+            // both implemented in a library for a library type; the entry package coerces a value of that
+            // type to `dyn` (the impls must have reached it through the interface file just as through the
+            // whole-program environment)
+            let main_text = files.iter().find(|(p, _)| p == "main.gom").map(|(_, t)| t.clone()).unwrap_or_default();
+            let libs: Vec<String> = main_text
+                .lines()
+                .filter_map(|l| l.strip_prefix("import "))
+                .map(|l| l.trim().to_string())
+                .filter(|l| files.iter().any(|(p, _)| p.starts_with(&format!("{l}/"))))
+                .collect();
+            if !libs.is_empty() {
+                let lib = libs[d.below(libs.len())].clone();
+                let marker_only = d.chance(80);
+                let lib_text = "trait Marker14 {}\n\ntrait Named14 {\n    fn name14(Self) -> string;\n}\n\nstruct Tag14 {\n    n: int32,\n}\n\nimpl Marker14 for Tag14 {}\n\nimpl Named14 for Tag14 {\n    fn name14(self: Tag14) -> string {\n        \"tag\" + int32_to_string(self.n)\n    }\n}\n\nfn mk_tag14(n: int32) -> Tag14 {\n    Tag14 { n: n }\n}\n";
+                if let Some((_, t)) = files.iter_mut().find(|(p, _)| p.starts_with(&format!("{lib}/"))) {
+                    t.push('\n');
+                    t.push_str(lib_text);
+                }
+                if let Some((_, main)) = files.iter_mut().find(|(p, _)| p == "main.gom") {
+                    let lines: Vec<&str> = main.lines().collect();
+                    if let Some(mi) = lines.iter().position(|l| l.starts_with("fn main(") && l.trim_end().ends_with('{')) {
+                        let helpers = format!(
+                            "fn use_marker14(m: dyn {lib}::Marker14) -> int32 {{\n    14\n}}\n\nfn use_named14(m: dyn {lib}::Named14) -> string {{\n    {lib}::Named14::name14(m)\n}}\n\n"
+                        );
+                        let mut calls = format!("    let t14: {lib}::Tag14 = {lib}::mk_tag14(3);\n    let _ = string_println(int32_to_string(use_marker14(t14)));\n");
+                        if !marker_only {
+                            calls.push_str("    let _ = string_println(use_named14(t14));\n");
+                        }
+                        let mut out = String::new();
+                        for (i, l) in lines.iter().enumerate() {
+                            if i == mi {
+                                out.push_str(&helpers);
+                            }
+                            out.push_str(l);
+                            out.push('\n');
+                            if i == mi {
+                                out.push_str(&calls);
+                            }
+                        }
+                        *main = out;
+                        labels.push("dyn-across-packages".into());
+                        labels.push("marker-trait".into());
+                    }
+                }
+            }
+        }
         if phase == "defect" {
             let k0 = (index % projgen::DEFECT_KINDS.len() as u64) as usize;
             for off in 0..projgen::DEFECT_KINDS.len() {
